@@ -42,6 +42,8 @@ Verdict(run) ==
         clause ==
             IF ~run.opens \/ ~run.fsck THEN "repository-damaged"
             ELSE IF run.stuck THEN "stuck"
+            \* the etag a put answers with is part of its answer: it is the etag of what it stored
+            ELSE IF \E w \in {"A", "B", "C"} : ~run.etag_ok[w] THEN "put-answered-with-the-etag-of-other-contents"
             ELSE IF lin /\ cOK /\ ~run.views_ok THEN "stale-view-after-overlap"
             ELSE IF lin /\ cOK THEN "ok"
             ELSE IF lin THEN "wrong-answer-after-overlap"
